@@ -10,6 +10,7 @@ package fzf
 import (
 	"fmt"
 	"os"
+	"path/filepath"
 	"regexp"
 	"runtime"
 	"sort"
@@ -109,11 +110,13 @@ type sysPlan struct {
 	NumCPU   int        `json:"num_cpu"`
 	DsrMs    int        `json:"dsr_ms"`
 	// ClockGrain > 1: fzf's clock is coarse - readings taken within one grain are equal
-	ClockGrain int  `json:"clock_grain,omitempty"`
-	Multi      int  `json:"multi"` // 0 none, -1 unlimited, n limit
-	Header     int  `json:"header_lines"`
-	Tail       int  `json:"tail"`
-	Read0      bool `json:"read0"`
+	ClockGrain int `json:"clock_grain,omitempty"`
+	// TmpGone: the directory for temporary files does not exist (any more): every attempt to create one fails
+	TmpGone bool `json:"tmp_gone,omitempty"`
+	Multi   int  `json:"multi"` // 0 none, -1 unlimited, n limit
+	Header  int  `json:"header_lines"`
+	Tail    int  `json:"tail"`
+	Read0   bool `json:"read0"`
 	// Stages: the producer on stdin writes this many records, then pauses until the next "feed" event
 	// (one entry per pause; what is left after the last pause comes with the last feed)
 	Stages []int `json:"stages,omitempty"`
@@ -373,6 +376,10 @@ func (r *sysRun) start() bool {
 	if d, err := os.MkdirTemp("", "run-"); err == nil {
 		r.tmpDir = d
 		os.Setenv("TMPDIR", d)
+		if plan.TmpGone {
+			os.Setenv("TMPDIR", filepath.Join(d, "gone"))
+			c.count("fault.tmpdir_gone", 1)
+		}
 	}
 	r.os = simos.New(r.sim)
 	r.os.Log = func(format string, args ...any) {
@@ -514,7 +521,7 @@ func (r *sysRun) start() bool {
 			orig(str)
 		}
 	}
-	tmp, err := os.CreateTemp("", "verif-stdout-")
+	tmp, err := os.CreateTemp(r.tmpDir, "verif-stdout-")
 	if err != nil {
 		panic("zsim: INFRA " + err.Error())
 	}
